@@ -56,7 +56,8 @@ class Scope(object):
 
 
 class ProgGen(object):
-    def __init__(self, seed, features=None, size=None):
+    def __init__(self, seed, features=None, size=None, emph=()):
+        self.emph = set(emph)       # constructs to make frequent (a sub-family that exercises them densely)
         self.r = random.Random(seed)
         self.seed = seed
         feats = list(features) if features is not None else [f for f in ALL_FEATURES if self.r.random() < 0.6]
@@ -135,9 +136,13 @@ class ProgGen(object):
     def un_type(self):
         if self.uns and self.r.random() < 0.7:
             return self.r.randrange(len(self.uns))
-        cands = [SI, BOOL] + ([BI] if "bi" in self.feat else []) + ([STR] if "str" in self.feat else [])
+        # branches are named (t1, t2, ...), so several branches may have the same type
+        cands = [SI, SI, BOOL] + ([BI, BI] if "bi" in self.feat else []) + ([STR] if "str" in self.feat else [])
         self.r.shuffle(cands)
-        self.uns.append(cands[:self.r.randint(2, len(cands))])
+        br = cands[:self.r.randint(2, min(4, len(cands)))]
+        if "store" in self.emph:
+            br = [SI, SI] + br[:2]           # (emphasis) branches that share a type
+        self.uns.append(br)
         return len(self.uns) - 1
 
     # -- literals ---------------------------------------------------------
@@ -266,6 +271,8 @@ class ProgGen(object):
             return prim(p + "." + op, self.expr(t, scope, d - 1), self.expr(t, scope, d - 1))
         if c == "cmp":
             at = r.choice([SI, SI, BI] if "bi" in self.feat else [SI])
+            if r.random() < 0.2:
+                return prim(("si" if at == SI else "bi") + "." + r.choice(["odd", "even", "zero"]), self.expr(at, scope, d - 1))
             if r.random() < 0.15:
                 return prim("bool." + r.choice(["eq", "ne"]), self.expr(BOOL, scope, d - 1), self.expr(BOOL, scope, d - 1))
             p = "si" if at == SI else "bi"
@@ -334,16 +341,35 @@ class ProgGen(object):
         (a call of an impure function or of a closure), its own operands are pure."""
         r = self.r
         if self.exns and not self.pure_mode and self.in_fun and self.in_gen is None and isinstance(t, str) and t != UNIT \
-                and d > 0 and r.random() < 0.25:      # (try inside a generator: known finding, optimiser "bad case")
+                and d > 0 and r.random() < (0.6 if "try" in self.emph else 0.25):      # (try inside a generator: known finding, optimiser "bad case")
             save_loop = self.in_loop
             self.in_try += 1
             self.in_loop = 0
-            body = self.rhs(t, scope, d - 1)
+            thr = [i for i, f in enumerate(self.funs) if f.get("thrower")]
+            if thr and t == SI and r.random() < 0.7:
+                body = {"e": "call", "fi": r.choice(thr) + 1, "args": [lit(SI, r.randint(0, len(self.exns)))]}
+            else:
+                body = self.rhs(t, scope, d - 1)
             hs = [{"exn": ex, "ps": [], "body": self.expr(t, scope, d - 1)} for ex in r.sample(self.exns, r.randint(1, 2))]
-            fin = self.block(Scope(scope), 0, 1) if r.random() < 0.5 else {"e": "none"}
+            if "try" in self.emph:
+                fin = {"e": "seq", "t": UNIT, "es": [{"e": "print", "args": [{"e": "str", "s": "fin%d\n" % r.randint(0, 9)}]}]}
+            else:
+                fin = self.block(Scope(scope), 0, 1) if r.random() < 0.5 else {"e": "none"}
             self.in_try -= 1
             self.in_loop = save_loop
             return {"e": "try", "t": t, "body": body, "hs": hs, "fin": fin}
+        if not self.pure_mode and self.in_fun and d > 1 and isinstance(t, str) and t != UNIT \
+                and r.random() < (0.6 if "store" in self.emph else 0.2):
+            # a conditional or a block as the single operand: its parts may have effects, their order is defined
+            if r.random() < 0.5:
+                return {"e": "if", "c": self.expr(BOOL, scope, d - 1), "a": self.rhs(t, scope, d - 1), "b": self.rhs(t, scope, d - 1), "t": t}
+            save_loop, save_gen = self.in_loop, self.in_gen
+            self.in_loop, self.in_gen = 0, None          # no break / yield from inside an expression block
+            self.no_ret += 1
+            es = [self.stmt(Scope(scope), 0) for _ in range(r.randint(1, 2))] + [self.rhs(t, scope, d - 1)]
+            self.no_ret -= 1
+            self.in_loop, self.in_gen = save_loop, save_gen
+            return {"e": "seq", "es": es, "t": t}
         if not self.pure_mode and r.random() < 0.35:
             c = []
             fs = [i for i, f in enumerate(self.funs) if tkey(f["rt"]) == tkey(t) and self.here(f) and not f.get("pure")]
@@ -359,6 +385,15 @@ class ProgGen(object):
                 vt = scope.lookup_all()[y][0]
                 return {"e": "callv", "f": var(y), "args": [self.expr(at, scope, d - 1) for at in vt[1]]}
         return self.expr(t, scope, d)
+
+    def effectful_value(self, t, scope, d):
+        """(emphasis) a block `{ output statement; value }` -- possibly under a conditional -- as a right-hand side."""
+        r = self.r
+        blk = {"e": "seq", "t": t, "es": [{"e": "print", "args": [{"e": "str", "s": "tick%d\n" % r.randint(0, 99)}]},
+                                          self.expr(t, scope, max(d - 1, 0))]}
+        if self.in_fun and r.random() < 0.5:
+            return {"e": "if", "c": self.expr(BOOL, scope, max(d - 1, 0)), "a": blk, "b": self.expr(t, scope, max(d - 1, 0)), "t": t}
+        return blk
 
     def call(self, fi, scope, d):
         f = self.funs[fi]
@@ -401,15 +436,15 @@ class ProgGen(object):
         if self.in_gen is not None and not self.in_try:
             choices += ["yield"] * 3
         if self.exns and not self.pure_mode and self.in_fun and not self.in_gen and d > 0 and r.random() < 0.4:
-            choices += ["throw"]
+            choices += ["throw"] * (4 if "try" in self.emph else 1)
         if "halt" in self.feat and not self.pure_mode and self.in_fun and not self.in_gen and d > 0 and r.random() < 0.3:
             choices += ["halt"]
         for x, (vt, a) in allv.items():
             if isinstance(vt, list) and not self.pure_mode:
                 if vt[0] == "arr" and x in self.arrlen:
-                    choices.append(("aset", x))
+                    choices += [("aset", x)] * (4 if "store" in self.emph else 1)
                 if vt[0] == "rec" and not (self.top_loop and not self.in_fun):
-                    choices.append(("rset", x))
+                    choices += [("rset", x)] * (4 if "store" in self.emph else 1)
         if self.funs and d > 0 and not self.pure_mode:
             choices.append("callstmt")
         if not choices:
@@ -516,11 +551,15 @@ class ProgGen(object):
         k, x = c
         vt = allv[x][0]
         if k == "aset":
-            return {"e": "aset", "a": var(x), "i": lit(SI, r.randint(1, self.arrlen[x])), "v": self.expr(vt[1], scope, d)}
+            v = self.effectful_value(vt[1], scope, d) if ("store" in self.emph and not self.pure_mode and r.random() < 0.6) \
+                else self.rhs(vt[1], scope, d)
+            return {"e": "aset", "a": var(x), "i": lit(SI, r.randint(1, self.arrlen[x])), "v": v}
         if k == "rset":
             fts = self.recs[vt[1]]
             i = r.randrange(len(fts))
-            return {"e": "rset", "r": var(x), "i": i + 1, "v": self.expr(fts[i], scope, d), "rt": vt[1]}
+            v = self.effectful_value(fts[i], scope, d) if ("store" in self.emph and not self.pure_mode and r.random() < 0.6) \
+                else self.rhs(fts[i], scope, d)
+            return {"e": "rset", "r": var(x), "i": i + 1, "v": v, "rt": vt[1]}
         raise ValueError(c)
 
     def block(self, scope, d, n, pre=None):
@@ -719,6 +758,53 @@ class ProgGen(object):
                     ops.append(body(1, i, 0))
             self.doms.append({"name": "PD%d" % k, "cat": 2, "pcat": 1, "ops": ops})
 
+    def throwers(self):
+        """(emphasis on exceptions) functions that throw a different exception for each small argument value."""
+        for _ in range(2):
+            name = self.fresh("f")
+            p_ = self.fresh("p")
+            es = []
+            for k, ex in enumerate(self.r.sample(self.exns, len(self.exns))):
+                es.append({"e": "exit", "c": prim("si.eq", var(p_), lit(SI, k)), "v": {"e": "throw", "exn": ex, "args": []}})
+            es.append(prim("si.add", var(p_), lit(SI, self.r.randint(5, 50))))
+            f = {"name": name, "oname": name, "ps": [p_], "pts": [SI], "rt": SI, "pure": False, "thrower": True,
+                 "body": {"e": "seq", "t": SI, "es": es}}
+            self.funs.append(f)
+            self.items.append(("f", f))
+
+    def try_drivers(self):
+        """(emphasis on exceptions) nested try expressions around the throwers: an inner try that handles some
+        exceptions and re-raises the others through its finally part, an outer try that handles all of them."""
+        r = self.r
+        thr = [i for i, f in enumerate(self.funs) if f.get("thrower")]
+        if not thr:
+            return
+
+        def fin(tag):
+            return {"e": "seq", "t": UNIT, "es": [{"e": "print", "args": [{"e": "str", "s": "%s\n" % tag}]}]}
+        for k in range(2):
+            p1 = self.fresh("p")
+            inner = {"e": "try", "t": SI, "body": {"e": "call", "fi": r.choice(thr) + 1, "args": [var(p1)]},
+                     "hs": [{"exn": ex, "ps": [], "body": lit(SI, -(i + 1))} for i, ex in enumerate(r.sample(self.exns, r.randint(1, 2)))],
+                     "fin": fin("cleanup-inner%d" % k) if r.random() < 0.8 else {"e": "none"}}
+            fi_ = {"name": self.fresh("f"), "ps": [p1], "pts": [SI], "rt": SI, "pure": False,
+                   "body": {"e": "let", "x": self.fresh("v"), "t": SI, "v": inner, "body": None}}
+            fi_["body"]["body"] = prim("si.add", var(fi_["body"]["x"]), lit(SI, 100))
+            fi_["oname"] = fi_["name"]
+            self.funs.append(fi_)
+            self.items.append(("f", fi_))
+            p2 = self.fresh("p")
+            outer = {"e": "try", "t": SI, "body": {"e": "call", "fi": len(self.funs), "args": [var(p2)]},
+                     "hs": [{"exn": ex, "ps": [], "body": lit(SI, 900 + i)} for i, ex in enumerate(self.exns)],
+                     "fin": fin("cleanup-outer%d" % k) if r.random() < 0.5 else {"e": "none"}}
+            fo = {"name": self.fresh("f"), "ps": [p2], "pts": [SI], "rt": SI, "pure": False, "body": outer}
+            fo["oname"] = fo["name"]
+            self.funs.append(fo)
+            self.items.append(("f", fo))
+            for a in range(len(self.exns) + 1):
+                self.items.append(("t", {"d": "stmt", "x": {"e": "print", "args": [
+                    {"e": "call", "fi": len(self.funs), "args": [lit(SI, a)]}, {"e": "str", "s": "\n"}]}}))
+
     def macro(self):
         """A macro m(p1, .., pn) ==> body over scalar parameters; the body mentions only its parameters."""
         r = self.r
@@ -744,6 +830,8 @@ class ProgGen(object):
                 self.macro()
         if "dom" in self.feat:
             self.domains()
+        if "try" in self.emph and self.exns:
+            self.throwers()
         for _ in range(r.randint(1, 3)):
             self.global_var()
         for _ in range(nforms):
@@ -755,6 +843,8 @@ class ProgGen(object):
             else:
                 s = self.stmt(self.gscope, 2)
                 self.items.append(("t", {"d": "stmt", "x": s}))
+        if "try" in self.emph and self.exns:
+            self.try_drivers()
         # make sure something is printed
         pr = [x for x, (t, a) in self.gscope.vars.items() if t in (SI, BI, STR)]
         args = []
@@ -791,7 +881,24 @@ class ProgGen(object):
         if isinstance(t, list) and t[0] == "arr":
             self.arrlen[x] = int("".join(map(str, init["n"]["ds"])))
         self.gscope.vars[x] = (t, not (isinstance(t, list) and t[0] == "arr"))
+        if "store" in self.emph and isinstance(t, list) and t[0] == "un" and "fun" in self.feat:
+            self._pending_probe = (x, t)
         self.items.append(("t", {"d": "var", "x": x, "t": t, "init": init}))
+        pp = getattr(self, "_pending_probe", None)
+        if pp:
+            # (emphasis) a function that tells which branch a union value is in, and an output statement using it
+            self._pending_probe = None
+            ux, ut = pp
+            p_ = self.fresh("p")
+            es = [{"e": "exit", "c": {"e": "uis", "u": var(p_), "tag": k + 1, "ut": ut[1]}, "v": lit(SI, k + 1)}
+                  for k in range(len(self.uns[ut[1]]))]
+            es.append(lit(SI, 0))
+            f = {"name": self.fresh("f"), "ps": [p_], "pts": [ut], "rt": SI, "pure": True, "body": {"e": "seq", "t": SI, "es": es}}
+            f["oname"] = f["name"]
+            self.funs.append(f)
+            self.items.append(("f", f))
+            self.items.append(("t", {"d": "stmt", "x": {"e": "print", "args": [
+                {"e": "call", "fi": len(self.funs), "args": [var(ux)]}, {"e": "str", "s": " branch\n"}]}}))
 
     # "wlet" is a generator-internal node: a while loop together with its counter.  The counter
     # becomes a `let` at the head of the enclosing function/lambda/generator body, or a global.
@@ -831,10 +938,10 @@ class ProgGen(object):
         self.items = newitems
 
 
-def generate(seed, n, features=None):
+def generate(seed, n, features=None, emph=()):
     out = []
     for i in range(n):
-        g = ProgGen(seed * 100003 + i, features=features)
+        g = ProgGen(seed * 100003 + i, features=features, emph=emph)
         out.append(g.program("g%d_%d" % (seed, i)))
     return out
 
